@@ -4069,6 +4069,96 @@ def c02_propset_codepage_group(mir, ctx):
     return [g]
 
 
+def c09_propvalue_read_group(mir, ctx):
+    """PropertyValue::read on an arbitrary reader (every read succeeds with an arbitrary value or fails), string loop unrolled
+    (<= 2 bytes read): no arithmetic / index / unwrap panic for any type tag and any length field."""
+    cands = [f for n, fs in mir.fns.items() for f in fs if re.search(r"propset::<impl at [^>]*>::read$", n) and (f.ret or "").replace(" ", "").startswith("Result<PropertyValue,")]
+    if len(cands) != 1:
+        raise EncodingError("PropertyValue::read not found uniquely (%d)" % len(cands))
+    fn = cands[0]
+    lens = {}
+    it_models, what_of, coll = iter_models(ctx, lens, consistent=True)
+
+    def m_int(ty):
+        return lambda ex, callee, args, pc, events: [(pc, events, EnumV(variant=0, fields=[ctx.fresh_int("read_" + ty, ty)])),
+                                                     (pc, events, EnumV(variant=1, fields=[OpaqueV("io::Error")]))]
+
+    def m_range_next(ex, callee, args, pc, events):
+        r = ex.load(args[0])
+        while isinstance(r, RefV):
+            r = r.target if isinstance(r.target, (EnumV, TupleV)) else ex.load(r.target)
+        end = r.fields[1] if isinstance(r, EnumV) and len(r.fields) == 2 else None
+        if not isinstance(end, IntV):
+            raise EncodingError("Range::next over %r" % (r,))
+        st = ex.heap.setdefault("$range", {"k": 0})
+        k = st["k"]
+        hp = copy.deepcopy(ex.heap)
+        hp["$range"]["k"] = k + 1
+        return [(pc + ["(< %d %s)" % (k, end.term)], events, EnumV(variant=1, fields=[M.mk_int(k, "u32")]), hp),
+                (pc + ["(>= %d %s)" % (k, end.term)], events, EnumV(variant=0, fields=[]), copy.deepcopy(ex.heap))]
+
+    def m_read_to_end(ex, callee, args, pc, events):
+        n = ctx.fresh_int("bytes_read", "usize")
+        lens["len:buffer"] = n
+        return [(pc, events + [("read_to_end", n.term)], EnumV(variant=0, fields=[n])), (pc, events, EnumV(variant=1, fields=[OpaqueV("io::Error")]))]
+
+    def m_vec_len(ex, callee, args, pc, events):
+        if "len:buffer" not in lens:
+            lens["len:buffer"] = ctx.fresh_int("buffer_len", "usize")
+        return [(pc, events, lens["len:buffer"])]
+
+    def m_index(ex, callee, args, pc, events):
+        i = ex.load(args[1])
+        if "len:buffer" not in lens:
+            lens["len:buffer"] = ctx.fresh_int("buffer_len", "usize")
+        n = lens["len:buffer"]
+        if not isinstance(i, IntV):
+            return [(pc, events, OpaqueV("byte"))]
+        oob = "(>= %s %s)" % (i.term, n.term)
+        return [(pc + [s_not(oob)], events, RefV(ctx.fresh_int("byte", "u8"))),
+                (pc + [oob], events, Outcome("panic", pc + [oob], msg="index out of bounds: the buffer holds fewer bytes than the length field says", events=events))]
+
+    models = [
+        (r"ReadBytesExt>::read_u32::<", m_int("u32")), (r"ReadBytesExt>::read_i32::<", m_int("i32")), (r"ReadBytesExt>::read_i16::<", m_int("i16")),
+        (r"ReadBytesExt>::read_u16::<", m_int("u16")), (r"ReadBytesExt>::read_u8$", m_int("u8")), (r"ReadBytesExt>::read_i8$", m_int("i8")),
+        (r"ReadBytesExt>::read_u64::<", m_int("u64")), (r"Timestamp::read_from::<", lambda ex, callee, args, pc, events: [(pc, events, EnumV(variant=0, fields=[OpaqueV("timestamp")])), (pc, events, EnumV(variant=1, fields=[OpaqueV("io::Error")]))]),
+        (r"<std::ops::Range<u32> as Iterator>::next$", m_range_next), (r"<std::ops::Range<u32> as IntoIterator>::into_iter$", lambda ex, callee, args, pc, events: [(pc, events, ex.load(args[0]))]),
+        (r"as (std::io::)?Read>::read_to_end$", m_read_to_end), (r"Vec::<u8>::len$", m_vec_len),
+        (r"<Vec<u8> as Index<usize>>::index$", m_index),
+        (r"CodePage::decode$", lambda ex, callee, args, pc, events: [(pc, events, OpaqueV("text"))]),
+    ] + it_models
+    ex = M.Exec(mir, ctx, models=models, havoc_unknown=True)
+    ex.max_revisit = deeper(3)
+    ex.no_inline = [r"CodePage::", r"Timestamp::"]
+    outs = ex.run(fn, [OpaqueV("reader"), OpaqueV("codepage")])
+    outs = outs + ex._pending_panics
+    ex._pending_panics = []
+    g = Group("propvalue_read_total", ["propset::PropertyValue::read (string loop unrolled)"], confirm=_c09_propvalue_confirm,
+              note="PropertyValue::read returns a value or an error for every type tag, every length field and every behaviour of the reader "
+                   "(<= 2 string bytes read one by one): no arithmetic overflow, no index out of bounds, no unwrap")
+    n = 0
+    for k, o in enumerate(outs):
+        if o.kind == "panic":
+            g.queries.append(Query("panic_%d" % k, o.pc, "unsat", note="PropertyValue::read can panic: %s" % o.msg))
+        elif o.kind == "return":
+            n += 1
+            if len(g.witness) < 30:
+                g.witness.append(Query("w_%d" % k, o.pc, "sat"))
+    g.queries.append(Query("paths", ["false"], "unsat", note="%d returning paths" % n))
+    if n < 8:
+        raise EncodingError("PropertyValue::read: only %d returning paths" % n)
+    return [g]
+
+
+def _c09_propvalue_confirm(model, native):
+    out = native("native::c02::replay_propvalue_read_total", {})
+    if not out.get("_ran"):
+        return None, "native replay did not run"
+    if out.get("_panicked"):
+        return True, "native replay panicked: %s" % out.get("_panic_msg")
+    return (out.get("differs") == 1), (out.get("witness") or "PropertyValue::read returns on all %s byte strings natively" % out.get("checked"))
+
+
 def _c02_propset_confirm(model, native):
     out = native("native::c02::replay_propset_layouts", {})
     if not out.get("_ran"):
@@ -4203,7 +4293,7 @@ def _proto(which):
     return build
 
 
-BUILDERS = {"C18": c18_groups, "C19": c19_groups, "C14": (lambda mir, ctx: c14_groups(mir, ctx) + c14_chunk_loop_group(mir, ctx)), "C20": c20_all, "C09": c20_groups,
+BUILDERS = {"C18": c18_groups, "C19": c19_groups, "C14": (lambda mir, ctx: c14_groups(mir, ctx) + c14_chunk_loop_group(mir, ctx)), "C20": c20_all, "C09": (lambda mir, ctx: c20_groups(mir, ctx) + c09_propvalue_read_group(mir, ctx)),
             "C01": _proto({"mutators", "finish", "close"}), "C10": (lambda mir, ctx: _proto({"mutators", "finish"})(mir, ctx) + c10_set_codepage_group(mir, ctx) + c10_size_law_group(mir, ctx)),
             "C15": (lambda mir, ctx: _proto({"finish", "close"})(mir, ctx) + c15_writers_flush_group(mir, ctx)), "C16": (lambda mir, ctx: _proto({"readonly"})(mir, ctx) + c16_loaded_pool_group(mir, ctx)), "C08": (lambda mir, ctx: c08_all(mir, ctx) + _proto({"finish"})(mir, ctx)), "C04": (lambda mir, ctx: _proto({"reject"})(mir, ctx) + c04_create_table_group(mir, ctx) + c05_update_group(mir, ctx) + c05_insert_group(mir, ctx)), "C11": c11_all, "C07": c07_insert_gate_group, "C12": c12_all, "C05": c05_all, "C13": c13_constructor_group, "C03": c03_all, "C06": c06_enum_gate_group, "C02": c02_propset_codepage_group}
 
